@@ -428,7 +428,7 @@ def reach_under (repo, module, g, env, cls=None, start=None, exc=False, local_de
 # ---------------------------------------------------------------------------
 # constant propagation along enumerated paths
 
-_BUILTIN_VALUES = {'tuple': tuple, 'list': list, 'dict': dict, 'int': int, 'str': str, 'bytes': bytes,
+_BUILTIN_VALUES = {'tuple': tuple, 'list': list, 'dict': dict, 'int': int, 'float': float, 'str': str, 'bytes': bytes,
                    'bool': bool, 'True': True, 'False': False, 'None': None, 'set': set}
 
 def _eval_call (repo, module, e, env, cls):
